@@ -114,6 +114,20 @@ CLAIMED["C12"] = {
     "design_ref": "7 (C12)",
 }
 
+CLAIMED["C05"] = {
+    "technique": "Coq proofs on the scanner table regenerated from scanner/steps*.go: no state distinguishes CR from LF or space from tab (for every configuration and oracle, lifted from a decision over all states), blanks and line ends are inert in the 18 between-directive / before-body states, a comment is opened by saving the interrupted state, read without any event or change but the read position, and its line end is handed to the restored state (line_comment_skipped for comment text of any length); the remaining part of the property (invariance of later stages under the position shift, block comments as a whole, quoting, parentheses) is decided by metamorphic runs: generated API models rendered under random trivia plans and fixtures under text-level rewritings must give the same verdict and byte-identical JSON",
+    "text": "8 theorems about the step semantics over the translated scanner table (partial: the scanner's part of the property); metamorphic correspondence of the implementation with itself under all listed rewritings on generated and fixture documents every run.",
+    "note": "Trusted: Coq kernel, go2coq (scanner table translator), the document generator/renderer (verifsys/gendoc, self-checked every run), harness. Partial: see the header of coq/props/C05.v for what is proved and what is only explored. Known findings: bare '#' next to a body and block comment + directive on one line after a body (schema library).",
+    "design_ref": "7 (C05)",
+}
+
+CLAIMED["C11"] = {
+    "technique": "Coq proofs over the catalog skeleton model (Catalog.build / Core.expand): the catalog build is a fold of one adder over the pre-order of the expanded forest whose accepted steps only grow a state order (names, ids, URL paths, similar-path bindings, Protocol set, filled singleton slots), so a second directive that meets what the first left behind cannot succeed; 51 theorems: every duplicate kind (type, server, enum, tag, macro, method, JSON-RPC method, URL, similar paths), every second singleton child, every missing required parameter, undefined macro and undefined tag are rejected for all forests, with the exact located diagnostic under 'no earlier fault'; tied to the code by skeleton/diagnostic correspondence on fault-injected documents (direct, through PASTE, through INCLUDE) and by the span check on the implementation's diagnostic",
+    "text": "51 theorems for all forests on coq/model/Catalog.v and Core.v; every fault kind is injected at every slot of 13 base documents by three routes and the implementation must reject inside the span of the injected directive; the extracted model must give the same file, index, line and message class.",
+    "note": "Trusted: Coq kernel, extraction + OCaml driver, harness. Undefined TYPE/ENUM references sit inside schema text and are decided by the schema library (oracle), not by the model. Known findings: nameless TYPE diagnosed elsewhere, Body under an inline schema located at the parent, paste-time diagnostics located at the outer PASTE.",
+    "design_ref": "7 (C11)",
+}
+
 def main():
     checks = []
     for pid in ALL:
